@@ -61,6 +61,9 @@ class LayoutAccess(Unsupported):
     matrix with a concrete pattern (exact-order model) instead."""
 
 
+MATERIALISE_MAX = 9        # symbolic entries a pattern-abstract matrix may have when its layout is made concrete by forking
+
+
 _LAYOUT_ATTRS = ("data", "indices", "indptr", "nnz", "row", "col", "has_sorted_indices", "has_canonical_format")
 
 
@@ -82,6 +85,18 @@ class _Base:
         if nm == "nnz" and not self._dense_backed and "data" in self.__dict__:
             return len(self.__dict__["data"])
         if self._dense_backed and nm in _LAYOUT_ATTRS:
+            # The code reads the storage layout.  The pattern of this matrix depends on symbolic values, so the layout is made concrete by
+            # deciding, entry by entry, what is stored (forks; scipy stores exactly the non-zero entries of such a matrix) and the object
+            # BECOMES the exact-order matrix of that pattern.  Bounded: with many undecided entries the step is left undecided instead.
+            fmt = getattr(type(self), "format", None)
+            if fmt in ("csr", "csc", "coo"):
+                M = np.asarray(self.__dict__["_M"], dtype=object)
+                if sum(1 for x in M.flat if is_sym(x)) <= MATERIALISE_MAX:
+                    exact = {"csr": csr_array, "csc": csc_array, "coo": coo_array}[fmt](M.view(SArr))
+                    self.__class__ = type(exact)
+                    self.__dict__.clear()
+                    self.__dict__.update(exact.__dict__)
+                    return getattr(self, nm)
             raise LayoutAccess(f"sparse model: storage layout attribute {nm!r} of the pattern-abstract {type(self).__name__}")
         raise Unsupported(f"sparse model: attribute {nm!r} of {type(self).__name__} is not modelled")
 
